@@ -6,18 +6,19 @@
 set -u
 D="$1"; NAME="$2"
 export GOFLAGS=-mod=mod GOPROXY=off GOSUMDB=off GOTOOLCHAIN=local
-WT=$(mktemp -d /tmp/vs-XXXXXX); rmdir "$WT"
+WT=$(mktemp -d /tmp/vs-XXXXXX); rmdir "$WT"; LG=$(mktemp -d /tmp/vslog-XXXXXX)
 git -C /repo worktree add --detach "$WT" HEAD -q || exit 3
 cleanup() { git -C /repo worktree remove --force "$WT"; }
+trap 'rm -rf "$LG"' EXIT
 DEMO=$(python3 -c "import json,sys;print(json.load(open('$D/meta.json'))['demo_path'])")
 PKG=$(dirname "$DEMO")
 cp "$D/demo_test.go" "$WT/$DEMO"
-( cd "$WT" && go test -vet=off -count=1 "./$PKG/" >/tmp/vs-clean.log 2>&1 ); rc1=$?
+( cd "$WT" && go test -vet=off -count=1 "./$PKG/" >$LG/clean.log 2>&1 ); rc1=$?
 git -C "$WT" apply "$D/patch.diff" || { echo "$NAME: APPLY FAILED"; cleanup; exit 1; }
-( cd "$WT" && go build ./... >/tmp/vs-build.log 2>&1 ); rcb=$?
-( cd "$WT" && go test -vet=off -count=1 "./$PKG/" >/tmp/vs-patched.log 2>&1 ); rc2=$?
+( cd "$WT" && go build ./... >$LG/build.log 2>&1 ); rcb=$?
+( cd "$WT" && go test -vet=off -count=1 "./$PKG/" >$LG/patched.log 2>&1 ); rc2=$?
 rm "$WT/$DEMO"
-( cd "$WT" && go test -vet=off -count=1 ./... >/tmp/vs-suite.log 2>&1 ); rc3=$?
+( cd "$WT" && go test -vet=off -count=1 ./... >$LG/suite.log 2>&1 ); rc3=$?
 cleanup
 echo "$NAME: clean+demo rc=$rc1 (want 0) build rc=$rcb (want 0) patched+demo rc=$rc2 (want !=0) patched suite rc=$rc3 (want 0)"
 if [ $rc1 -eq 0 ] && [ $rcb -eq 0 ] && [ $rc2 -ne 0 ] && [ $rc3 -eq 0 ]; then
@@ -31,5 +32,5 @@ json.dump(m,open(sys.argv[2],'w'),indent=1)
 PY
   echo "$NAME: KEPT"
 else
-  echo "$NAME: REJECTED"; tail -5 /tmp/vs-clean.log /tmp/vs-patched.log /tmp/vs-suite.log | head -40
+  echo "$NAME: REJECTED"; tail -5 $LG/clean.log $LG/patched.log $LG/suite.log | head -40
 fi
